@@ -387,6 +387,34 @@ JudgeOut judge(const json &plan)
 						if (s["title"] == st["title"])
 							must_fail = true;
 			}
+			if (kind == "remove_missing") {
+				// computed from the configuration before the call, never from what the generator intended
+				size_t n = bo ? (*bo)["s"].size() : 0;
+				auto has_title = [&](const std::string &t) {
+					if (bo)
+						for (auto &s : (*bo)["s"])
+							if (s["title"].is_string() && strcasecmp(s["title"].get<std::string>().c_str(), t.c_str()) == 0)
+								return true;
+					return false;
+				};
+				if (o.op == "rmnsec")
+					must_fail = st.value("idx", 0u) >= n;
+				else if (o.op == "rmtsec")
+					must_fail = !has_title(st.value("title", std::string()));
+				else {
+					std::string nm = st.value("name", std::string());
+					size_t eq = nm.find('=');
+					if (eq == std::string::npos || nm.find_first_of("|'\\\"", eq) != std::string::npos)
+						must_fail = false;
+					else {
+						std::string q = nm.substr(eq + 1);
+						char *end = nullptr;
+						long v = strtol(q.c_str(), &end, 0);
+						bool numeral = !q.empty() && end && *end == 0;
+						must_fail = !has_title(q) && !(numeral && v >= 0 && (size_t)v < n);
+					}
+				}
+			}
 			if (kind.compare(0, 4, "veto") == 0) {
 				// the veto is only consulted for a legal by-name setter; an index beyond the list is a don't-care
 				must_fail = true;
